@@ -138,6 +138,30 @@ def run(ctx):
               detail=None if (argok and sl.leaves_scan) else "predicate known for the chosen mapping: %s; leaves the scan: %s" % ([(show(a)[:60], v) for a, v in sl.pred][:3], sl.leaves_scan))
         ck.ob("C03-R2", NP, "unsupported-mapping-is-skipped-and-the-scan-continues", sl.skips_quietly)
         ck.ob("C03-R2", NP, "one-firing-path", sl.acts == 1, detail="%d" % sl.acts)
+    # every acted-on press reaches the selection: no way out of newly_press before the pressed key's group has been
+    # looked up, and none between a successful look-up and the scan of the group
+    n_ret = 0
+    for p in mir.walk_function(np_):
+        if p.outcome[0] != "return":
+            continue
+        n_ret += 1
+        look = [(i, e) for i, e in enumerate(p.events) if e.kind == "call" and method_name(e.a) == "get" and "HashMap" in e.a and len(e.b) == 2
+                and mir.strip(e.b[1]) == k and isinstance(e.b[0], tuple) and e.b[0][0] == "field" and e.b[0][2] == "mappings"]
+        ck.ob("C03-R2", NP, "every-return-path-looks-the-pressed-key's-group-up", bool(look),
+              detail=None if look else "newly_press can return without consulting layout.mappings for the pressed key: a satisfied mapping would not fire")
+        if not look or not okfound:
+            continue
+        got = [e.b for e in p.events if e.kind == "guard" and e.a == T("variantof", look[0][1].c)]
+        if got and got[0] == "Some":
+            scanned = False
+            for sl in sels:
+                if sl.form == "loop":
+                    scanned = scanned or any(e.kind == "loop" and e.a == sl.header for e in p.events)
+                else:
+                    fc = sl.chosen[1][1] if isinstance(sl.chosen, tuple) and len(sl.chosen) > 1 and isinstance(sl.chosen[1], tuple) and len(sl.chosen[1]) > 1 else None
+                    scanned = scanned or any(e.kind == "call" and e.c == fc for e in p.events)
+            ck.ob("C03-R2", NP, "a-group-that-exists-is-scanned-on-every-path", scanned)
+    ck.floor("C03-R2", "newly_press-return-paths", n_ret, 1)
     callers = [c for c in ctx.callers_of(ANM) if "::tests::" not in c]
     ck.ob("C03-R2", "-", "add_new_mapping-has-one-caller", callers == [NP], detail=str(callers))
     ncalls = len([1 for i, n, t in np_.calls() if n == ANM])
